@@ -332,9 +332,17 @@ impl FallbackTime {
     #[verifier::external_body] pub fn best_before(self) -> DateTime<Utc> { unimplemented!() }
 }
 impl RepositoryState {
-    // clock-dependent (ASSUMED nothing): whether the copy is past its best-before time
-    #[verifier::external_body] fn is_expired(&self) -> bool { unimplemented!() }
-    #[verifier::external_body] fn best_before(&self) -> Option<DateTime<Utc>> { unimplemented!() }
+    // the best-before time of the copy as a timestamp (None: the stored number is not a valid time)
+    pub uninterp spec fn best_before_spec(&self) -> Option<DateTime<Utc>>;
+    // whether the best-before time has passed AT THE CLOCK READING TAKEN IN THIS CALL (is_expired reads
+    // the clock once; "if in doubt" -- no valid best-before time -- the copy counts as expired)
+    pub uninterp spec fn expired_now(&self) -> bool;
+    #[verifier::external_body]
+    fn is_expired(&self) -> (r: bool)
+        ensures r == self.expired_now(), self.best_before_spec() is None ==> r,
+    { unimplemented!() }
+    #[verifier::external_body]
+    fn best_before(&self) -> (r: Option<DateTime<Utc>>) ensures r == self.best_before_spec() { unimplemented!() }
 }
 #[verifier::external_body] pub struct ReadRepository { _opaque: () }
 #[verifier::external_body] pub struct Repository { _opaque: () }
@@ -354,6 +362,9 @@ impl RrdpArchive {
     fn try_open(path: Arc<PathBuf>) -> (r: Result<Option<RrdpArchive>, RunFailed>)
         ensures r matches Ok(Some(a)) ==> a.path_spec() == *path,
                 r is Err ==> local_archive_fault(*path),
+                // ghost fact: there is no (usable) local copy at `path` -- none at all, or a corrupt one that
+                // try_open has deleted
+                !(r matches Ok(Some(_))) ==> no_usable_copy(*path),
     { unimplemented!() }
     #[verifier::external_body]
     fn load_state(&self) -> (r: Result<RepositoryState, RunFailed>)
@@ -367,6 +378,8 @@ impl RrdpArchive {
 // Monotone ghost facts: "a 304 Not Modified / this notification file was received for `uri`".
 uninterp spec fn not_modified_received(uri: Https) -> bool;
 uninterp spec fn notification_received(uri: Https, n: Notification) -> bool;
+uninterp spec fn notification_failed(uri: Https) -> bool;
+pub uninterp spec fn no_usable_copy(path: PathBuf) -> bool;
 impl Notification {
     #[verifier::external_body]
     fn get(http: &HttpClient, uri: &Https, state: Option<&RepositoryState>, status: &mut HttpStatus,
@@ -374,6 +387,7 @@ impl Notification {
         ensures
             r matches Ok(None) ==> not_modified_received(*uri),
             r matches Ok(Some(n)) ==> notification_received(*uri, n),
+            r is Err ==> notification_failed(*uri),
     { unimplemented!() }
 }
 
@@ -381,6 +395,8 @@ impl Notification {
 // Monotone ghost fact "the archive file at `path` was replaced by one built from a snapshot file
 // that was accepted for this session and serial (SnapshotUpdate::try_update returned Ok)".
 uninterp spec fn snapshot_installed(path: PathBuf, session: Uuid, serial: u64) -> bool;
+// ... resp. "the snapshot update for the archive at `path` failed (a fault of that repository)"
+uninterp spec fn snapshot_failed(path: PathBuf) -> bool;
 impl<'a> RepositoryUpdate<'a> {
     #[verifier::external_body]
     fn snapshot_update(&mut self, notify: &Notification) -> (r: Result<bool, RunFailed>)
@@ -392,6 +408,7 @@ impl<'a> RepositoryUpdate<'a> {
             // SnapshotError => Ok(false); temp file / remove / rename failures are fatal): with the contract
             // PROVED for SnapshotUpdate::try_update an Err comes from a local file fault only
             r is Err ==> exists|p: PathBuf| #[trigger] local_archive_fault(p),
+            r matches Ok(false) ==> snapshot_failed(*old(self).path),
     { unimplemented!() }
 }
 
